@@ -42,6 +42,10 @@ class Prop(common.PropertyCheck):
                    'gain': [rng.choice([None, '2', '0.5']) for _ in range(D)], 'm': [rng.uniform(0.85, 1.25) for _ in range(D)], 'b': [rng.uniform(0, 7) for _ in range(D)],
                    'rfi_ch': ['one', 'subset', 'subset'][i % 3], 'mef_ch': 'subset', 'override': False, 'sc_all': False, 'seed': rng.randrange(1 << 30),
                    'sc_kind': 'lambda', 'nozero': False, 'nolimit': [], 'negpos': True}
+        # event counts one above a multiple of 2**16, the last event saturated (block-wise conversions)
+        for i, n in enumerate([65537, 131073][:self.budget(1, 2)]):
+            yield {'D': 2, 'res': [1024, 4096], 'pne': ['4,1', '0,0'], 'gain': [None, '2'], 'm': [1.05, 0.95], 'b': [2.0, 3.0], 'rfi_ch': 'all', 'mef_ch': 'all',
+                   'override': False, 'sc_all': True, 'seed': 77 + i, 'sc_kind': 'lambda', 'nozero': False, 'nolimit': [], 'pad_to': n}
         # more events than channel values, resolutions that are not powers of two (table-driven implementations)
         for _ in range(self.budget(12, 150)):
             yield {'D': 2, 'res': [rng.choice([1000, 777, 3000, 8000, 1023, 5000]), rng.choice([1000, 1023, 3000])],
@@ -69,6 +73,9 @@ class Prop(common.PropertyCheck):
             ev.append(col)
         events = [list(row) for row in zip(*ev)]
         r.shuffle(events)
+        if case.get('pad_to'):
+            k = case['pad_to'] - 1
+            events = (events * (k // len(events) + 1))[:k] + [[rr - 1 for rr in case['res']]]
         extra = [['$P%dG' % (c + 1), g] for c, g in enumerate(case['gain']) if g is not None]
         # the narrowest container that holds the declared range (8 / 16 / 32 bit): integer arithmetic on raw events may wrap
         widths = [8 if rr <= 256 else 16 if rr <= 65536 else 32 for rr in case['res']] if case['seed'] % 2 else [32] * D
